@@ -19,7 +19,7 @@
 From Coq Require Import List Arith Bool Lia PeanoNat Permutation.
 From VBase Require Import FieldOps.
 From VModel Require Import FFT Par.
-From VProofs Require Import ParCommute ParExamples ParBatch ParMisc ParPermute ParMerkle.
+From VProofs Require Import ParCommute ParExamples ParBatch ParMisc ParPermute ParMerkle ParEvalTable.
 Import ListNotations.
 
 (* ================================================================ generic fork-join model *)
@@ -308,6 +308,26 @@ Theorem C14_fragment_plan_spec : forall conc k T, 4 <= k -> (conc = true -> 13 <
   exists cs, fragment_plan conc (2 ^ k) T = Done cs /\ covers (2 ^ k) cs /\ (exists sz, Forall (fun c => snd c = sz) cs).
 Proof. exact fragment_plan_spec. Qed.
 Print Assumptions C14_fragment_plan_spec.
+
+(* index-batched closures (RowMatrix/ColMatrix::commit_to_rows, get_inv_evaluation): every batch evaluates f at the
+   global index batch_offset + i, so the concatenation over ANY partition is the serial map *)
+Theorem C14_map_batched_any_T : forall (A : Type) (f : nat -> A) conc n min T, 1 <= min ->
+  exists cs, batch_iter_chunks conc n min T = Done cs /\ map_batched f cs = map_serial f n.
+Proof. intros A f. exact (map_batched_any_T f). Qed.
+Print Assumptions C14_map_batched_any_T.
+
+(* acc_column (transition branch) looks z up with the LOCAL index i % z.len(): equal to the global lookup because the
+   minimum batch size 128 is a multiple of z.len() = 2^j <= 128 — for every domain size 2^k and every T *)
+Theorem C14_acc_z_index_spec : forall k j T cs, j <= 7 ->
+  batch_iter_chunks true (2 ^ k) 128 T = Done cs ->
+  acc_z_index_batched (2 ^ j) cs = acc_z_index_serial (2 ^ j) (2 ^ k).
+Proof. exact acc_z_index_spec. Qed.
+Print Assumptions C14_acc_z_index_spec.
+
+(* ... and it does rest on that minimum (non-vacuity / fragility witness) *)
+Theorem C14_acc_z_index_needs_min_batch : acc_z_index_batched 8 [(0, 4); (4, 4)] <> acc_z_index_serial 8 8.
+Proof. exact acc_z_index_needs_min_batch. Qed.
+Print Assumptions C14_acc_z_index_needs_min_batch.
 
 (* ================================================================ proof-of-work nonce *)
 
